@@ -1,0 +1,54 @@
+//go:build verif
+// +build verif
+
+package index
+
+import "github.com/RoaringBitmap/roaring"
+
+// VerifSegmentInfo is the persisted description of one segment of a snapshot
+// (verification hook, only built with -tags verif).
+type VerifSegmentInfo struct {
+	ID      uint64
+	Type    string
+	Version uint32
+	Deleted *roaring.Bitmap
+}
+
+// VerifNewSnapshot builds a snapshot value (without loaded segments) that can
+// be encoded with WriteTo.
+func VerifNewSnapshot(epoch uint64, segs []VerifSegmentInfo) *Snapshot {
+	rv := &Snapshot{epoch: epoch, refs: 1, creator: "verif"}
+	for _, s := range segs {
+		rv.segment = append(rv.segment, &segmentSnapshot{
+			id:             s.ID,
+			segmentType:    s.Type,
+			segmentVersion: s.Version,
+			deleted:        s.Deleted,
+		})
+	}
+	return rv
+}
+
+// VerifSegmentInfo returns the persisted description of every segment.
+func (i *Snapshot) VerifSegmentInfo() []VerifSegmentInfo {
+	rv := make([]VerifSegmentInfo, 0, len(i.segment))
+	for _, s := range i.segment {
+		rv = append(rv, VerifSegmentInfo{ID: s.id, Type: s.segmentType, Version: s.segmentVersion, Deleted: s.deleted})
+	}
+	return rv
+}
+
+// VerifEpoch returns the epoch of this snapshot.
+func (i *Snapshot) VerifEpoch() uint64 {
+	return i.epoch
+}
+
+// VerifSegmentPersisted reports, per segment of this snapshot, whether it is
+// backed by a persisted item.
+func (i *Snapshot) VerifSegmentPersisted() []bool {
+	rv := make([]bool, 0, len(i.segment))
+	for _, s := range i.segment {
+		rv = append(rv, s.segment != nil && s.segment.Persisted())
+	}
+	return rv
+}
